@@ -13,6 +13,7 @@ from .types import (
     FlattenedJSONSerialization,
 )
 from .registry import JWSRegistry
+from ..registry import check_disjoint_headers
 from ..util import (
     json_b64encode,
     json_b64decode,
@@ -57,6 +58,7 @@ def __sign_member(
         member: HeaderMember,
         registry: JWSRegistry,
         find_key: FindKey) -> JSONSignatureDict:
+    check_disjoint_headers(member.protected, member.header)
     headers = member.headers()
     registry.check_header(headers)
     alg = registry.get_alg(headers["alg"])
@@ -153,6 +155,7 @@ def verify_signature(
         payload_segment: bytes,
         registry: JWSRegistry,
         find_key: FindKey) -> bool:
+    check_disjoint_headers(member.protected, member.header)
     headers = member.headers()
     registry.check_header(headers)
     alg = registry.get_alg(headers["alg"])
